@@ -6,6 +6,7 @@
 use super::sc;
 use crate::sx::{c, s, si, var, Cond, SInt};
 use crate::{Scenario, Tier};
+use cosmwasm_std::Uint128;
 use margined_common::integer::Integer;
 use std::str::FromStr;
 use symrt::{prove_d, VAR_MAX};
@@ -121,9 +122,23 @@ fn cmp() {
 
 fn unary_string() {
     let m = var("a", 0, VAR_MAX, 42);
+    unary_string_of(m, "");
+}
+
+/// the same obligations on concrete boundary magnitudes (0, 1, around 2^63, 2^64, 2^127, the top of
+/// the claimed range): the printed form of a symbolic value is a handle, so a parser that takes
+/// any route other than `u128` can only be exercised with concrete digits
+fn unary_string_boundaries() {
+    let top = VAR_MAX - 1;
+    for m in [0u128, 1, 9, 10, (1 << 63) - 1, 1 << 63, (1 << 64) - 1, 1 << 64, (1 << 64) + 1, (1 << 127) - 1, 1 << 127, (1 << 127) + 1, top - 1, top] {
+        unary_string_of(Uint128::new(m), &format!(" m={}", m));
+    }
+}
+
+fn unary_string_of(m: Uint128, tag: &str) {
     for neg in [false, true] {
         let a = Integer { value: m, negative: neg };
-        let d = format!("sign({})", neg as u8);
+        let d = format!("sign({}){}", neg as u8, tag);
         let v = si(&a);
         consistent("invert_sign", a.invert_sign(), v.neg(), &d);
         consistent("abs", a.abs(), v.abs(), &d);
@@ -145,8 +160,12 @@ fn unary_string() {
         // serde form is the same string
         let js = String::from_utf8(cosmwasm_std::to_vec(&a).unwrap()).unwrap();
         prove_d("C19/serde-is-quoted-display", Cond::from_bool(js == format!("\"{}\"", txt)), d.clone());
-        let back: Integer = cosmwasm_std::from_slice(js.as_bytes()).unwrap();
-        consistent("serde-roundtrip", back, v, &d);
+        match cosmwasm_std::from_slice::<Integer>(js.as_bytes()) {
+            Ok(back) => consistent("serde-roundtrip", back, v, &d),
+            Err(_) => {
+                prove_d("C19/serialised-form-deserialises", Cond::False, d.clone());
+            }
+        }
     }
 }
 
@@ -158,5 +177,6 @@ pub fn scenarios(_seed: u64) -> Vec<Scenario> {
         sc("C19", Tier::Quick, "c19.addsub", d, 4000, 120, addsub),
         sc("C19", Tier::Quick, "c19.cmp", d, 2000, 120, cmp),
         sc("C19", Tier::Quick, "c19.unary_string", "magnitude symbolic, both signs: negation, abs, constructors, Display/FromStr/serde round trip", 2000, 120, unary_string),
+        sc("C19", Tier::Quick, "c19.unary_string.boundaries", "the same on concrete boundary magnitudes (0, 1, 2^63, 2^64, 2^127 +-1, top of the range), both signs", 10, 60, unary_string_boundaries),
     ]
 }
